@@ -85,6 +85,8 @@ func c16Positions() []position {
 		{"and-chain-tail-of-150", "cond", "SELECT a FROM t WHERE b = 2" + strings.Repeat(" AND b = 2", 150) + " AND %s", false},
 		{"insert-ragged-row", "cond", "INSERT INTO t (a) VALUES (1), (2, (SELECT b FROM u WHERE %s))", false},
 		{"cte-delete-body", "cond", "WITH d AS (DELETE FROM u WHERE %s RETURNING b) SELECT b FROM d", false},
+		{"between-dollar-pair-strings", "cond", "SELECT a FROM t WHERE b = '$$' AND %s AND c = '$$'", false},
+		{"after-tagged-dollar-in-string", "cond", "SELECT a FROM t WHERE b = '$x$' AND (%s) AND c = \"$x$\"", false},
 		{"setop-right", "cond", "SELECT a FROM t UNION SELECT b FROM u WHERE %s", false},
 		{"setop-left", "cond", "SELECT a FROM t WHERE %s UNION SELECT b FROM u", false},
 		{"update-subquery", "cond", "UPDATE t SET a = 1 WHERE b IN (SELECT c FROM u WHERE %s)", false},
@@ -125,6 +127,7 @@ func c16Positions() []position {
 		{"func-arg", "call", "SELECT COALESCE(%s, 1) FROM t", false},
 		{"arith", "call", "SELECT a FROM t WHERE a = 1 + %s", false},
 		{"case-result", "call", "SELECT CASE WHEN a = 1 THEN %s ELSE 0 END FROM t", false},
+		{"call-between-dollar-pair-strings", "call", "SELECT a FROM t WHERE b = '$$' AND a = %s AND c = '$$'", false},
 		{"case-first-result-of-three", "call", "SELECT CASE WHEN a = 1 THEN %s WHEN a = 2 THEN 2 WHEN a = 3 THEN 3 END FROM t", false},
 		{"concat-chain-head-of-200", "call", "SELECT %s" + strings.Repeat(" || 'x'", 200) + " FROM t", false},
 		{"plus-chain-head-of-600", "call", "SELECT a FROM t WHERE a = %s" + strings.Repeat(" + 1", 600), false},
